@@ -210,6 +210,12 @@ class World(object):
         self.faults[name] = self.faults.get(name, 0) + n
 
     def digest(self):
+        dump = os.environ.get('VERIF_DUMP_EVENTS')
+        if dump:
+            with open(dump, 'a') as f:
+                f.write('=== world %s\n' % self.sched_seed)
+                for ev in self.events:
+                    f.write(repr(ev) + '\n')
         h = hashlib.sha256()
         for ev in self.events:
             h.update(repr(ev).encode('utf-8', 'backslashreplace'))
